@@ -147,12 +147,13 @@ Fixpoint lmismatches (i : Z) (cs : list lcase) : list (Z * Z) :=
               if d =? -1 then lmismatches (i + 1) r else (i, d) :: lmismatches (i + 1) r
   end.
 
-(* ---- failure cases (C06): host functions that panic (h = 10), exit (h = 11) or re-enter the guest (h = 12) ---- *)
+(* ---- failure cases (C06): host functions that panic (h = 10), exit (h = 11), re-enter the guest (h = 12) or propagate the exit of another instance (h = 13) ---- *)
 Definition fail_host (hres : nat -> list Z) (reent : nat) (h : nat) (args : list Z) : hostres Z :=
   match h with
   | 10%nat => if (hd 0 args) mod 2 =? 0 then HPanic (hd 0 args) else HRet []
   | 11%nat => if (hd 0 args) mod 4 =? 0 then HExit (hd 0 args) else HRet []
   | 12%nat => HReenter reent args
+  | 13%nat => if (hd 0 args) mod 4 =? 0 then HExit (hd 0 args) else HRet []   (* exit of a nested helper instance, propagated by the host: same error, the caller's module stays open *)
   | _ => std_host hres h args
   end.
 
